@@ -321,6 +321,17 @@ Definition element_activity (rows : list arow) (z : Z) (isos : list (Z * Q)) (m 
   flat_map (fun ia => let '(a, ab) := ia in
                       let im := (m * ab * (1 # 100))%Q in
                       if Qeq_bool im 0 then [] else isotope_activity rows z a im env t) isos.
+(* a whole sample: the constituents of formula.mass_fraction in order, each an isotope or a natural element;
+   every occurrence contributes its own entries and _accumulate ADDS the entries of the same product, so a
+   nuclide that arrives twice (labelled and through the natural element) counts with the sum of its masses *)
+Inductive constituent := CIso (z a : Z) (frac : Q) | CElem (z : Z) (isos : list (Z * Q)) (frac : Q).
+Definition constituent_activity (rows : list arow) (m : Q) (env : actenv) (t : Q) (cst : constituent) : list outcome :=
+  match cst with
+  | CIso z a f => isotope_activity rows z a (m * f)%Q env t
+  | CElem z isos f => element_activity rows z isos (m * f)%Q env t
+  end.
+Definition sample_activity (rows : list arow) (m : Q) (env : actenv) (t : Q) (cs : list constituent) : list outcome :=
+  flat_map (constituent_activity rows m env t) cs.
 Definition constituent_rows (rows : list arow) (z : Z) (isos : list (Z * Q)) (m : Q) : list (arow * Q) :=
   flat_map (fun ia => let '(a, ab) := ia in
                       let im := (m * ab * (1 # 100))%Q in
